@@ -490,13 +490,31 @@ def two_direct_after(flag, *args, **kwargs):
     if flag:
         return target(*args, **kwargs)
     return target(*args, **kwargs)
+# a bare name handed to partial(...) counts as handed over; attributes and a second callee do not
+def other(p, x, y=2, *, z=3): return (p, x, y, z)
+def lazy_or_now(flag, *args, **kwargs):
+    if flag:
+        return functools.partial(target, *args, **kwargs)
+    return other('now', *args, **kwargs)
+class Job(object):
+    def handler(self, x, y, *, z): return (x, y, z)
+    def with_retry(self, *args, **kwargs):
+        retry = functools.partial(self.handler, *args, **kwargs)
+        LOG.append(retry)
+        return self.handler(*args, **kwargs)
+    def retry_after(self, *args, **kwargs):
+        r = self.handler(*args, **kwargs)
+        LOG.append(functools.partial(self.handler, *args, **kwargs))
+        return r
+job = Job()
 '''
     mod, fname = progs.load_module(src)
     problems = []
     shapes = [((), {}), ((1,), {}), ((1, 2), {}), ((1, 2), {'z': 3}), ((), {'x': 1, 'y': 2, 'z': 3}), ((1,), {'z': 3}), ((), {'z': 3})]
     try:
-        for nm, lead in (('later_first', ()), ('direct_first', ()), ('branches', (0,)), ('two_direct_after', (0,)), ('two_direct_after', (1,))):
-            f = getattr(mod, nm)
+        for nm, lead in (('later_first', ()), ('direct_first', ()), ('branches', (0,)), ('two_direct_after', (0,)), ('two_direct_after', (1,)),
+                         ('lazy_or_now', (0,)), ('job.with_retry', ()), ('job.retry_after', ())):
+            f = getattr(mod.job, nm[4:]) if nm.startswith('job.') else getattr(mod, nm)
             with warnings.catch_warnings():
                 warnings.simplefilter('ignore')
                 sig = sigtools.signature(f)
